@@ -118,7 +118,7 @@ typedef struct {
     /* handler program: response for the k-th (0-based) handler invocation */
     int nprog; int *prog_idx; int *prog_resp;
     int ncalls;
-    int log_handlers, log_syntax, query;
+    int log_handlers, log_syntax, query, in_parse;
     struct scanner_s *scanner;   /* not available: the scanner lives on cif_parse_internal's stack */
     obuf log; obuf errs;
     int first;
@@ -175,8 +175,15 @@ static int h_frame_end(cif_container_tp *b, void *d) { pctx *c = d; if (c->log_h
 static void log_loop(pctx *c, const char *ev, cif_loop_tp *l) {
     log_sep(c);
     ob_printf(&c->log, "[\"%s\",", ev);
-    if (!l) ob_puts(&c->log, "null");
-    else {
+    if (!l) ob_puts(&c->log, "null,null");
+    else if (c->in_parse && l->loop_num < 0) {
+        /* the parser hands a synthetic, unattached loop object to loop_start: only its own fields are meaningful */
+        int i;
+        ob_putc(&c->log, '[');
+        for (i = 0; l->names && l->names[i]; i++) { if (i) ob_putc(&c->log, ','); ob_jstr(&c->log, l->names[i]); }
+        ob_puts(&c->log, "],");
+        ob_jstr(&c->log, l->category);
+    } else {
         UChar **names = NULL; UChar *cat = NULL; int rc = cif_loop_get_names(l, &names), i;
         ob_putc(&c->log, '[');
         if (rc == CIF_OK) { for (i = 0; names[i]; i++) { if (i) ob_putc(&c->log, ','); ob_jstr(&c->log, names[i]); free(names[i]); } free(names); }
@@ -243,7 +250,7 @@ static const char *kv(toks *t, const char *key) {
 static void cmd_parse(toks *t) {
     pctx c; struct cif_parse_opts_s *o = NULL; cif_tp *cif = NULL, **target = NULL; int ci = -1, bi, rc, isnew = 0;
     const char *v; FILE *f; char *ws = NULL, *eol = NULL; unsigned char *tmp;
-    memset(&c, 0, sizeof c); c.first = 1;
+    memset(&c, 0, sizeof c); c.first = 1; c.in_parse = 1;
     if (t->n < 3) { ob_puts(&OUT, "ERR usage"); return; }
     if (strncmp(t->tok[1], "new:", 4) == 0) { ci = slot(t->tok[1] + 4, 'C', NCIF); isnew = 1; target = &cif; }
     else if (strcmp(t->tok[1], "-") != 0) { ci = slot(t->tok[1], 'C', NCIF); if (ci < 0 || !CIFS[ci]) { ob_puts(&OUT, "ERR cif slot"); return; } cif = CIFS[ci]; target = &cif; }
